@@ -28,8 +28,17 @@ func init() {
 
 func init() {
 	specs["C02"] = &Spec{ID: "C02", Level: "exploration", Parallel: 8,
-		Assumptions: []string{refAssumption, hookAssumption, "process time zone UTC (zone dependence is C13's subject)", "two digit system years >= 69, BCD year 0000 and the date 0001-01-01 are outside the stated domain (don't-care)"},
-		Plan:        func(tier string) []Batch { return same(n(tier, 8, 16), Batch{Timeout: 30 * time.Minute}) }}
+		Assumptions: []string{refAssumption, hookAssumption, "process time zone UTC for the byte-pattern sweeps; six DST zones (all zones in thorough) for the date / date-time fields on transition days; civil times that do not exist in the zone are don't-care", "two digit system years >= 69, BCD year 0000 and the date 0001-01-01 are outside the stated domain (don't-care)"},
+		Plan: func(tier string) []Batch {
+			b := same(n(tier, 8, 16), Batch{Timeout: 30 * time.Minute})
+			if tier == "thorough" {
+				return append(b, zoneBatches(0, "tz", 20*time.Minute)...)
+			}
+			for _, z := range []string{"America/New_York", "Europe/London", "America/Santiago", "Australia/Lord_Howe", "Asia/Beirut", "Pacific/Apia"} {
+				b = append(b, Batch{Mode: "tz", Env: []string{"TZ=" + z}, Timeout: 20 * time.Minute, Procs: 1})
+			}
+			return b
+		}}
 }
 
 func init() {
@@ -84,7 +93,7 @@ func init() {
 func init() {
 	specs["C13"] = &Spec{ID: "C13", Level: "exploration", Parallel: 16,
 		Assumptions: []string{"tz database: the one installed under /usr/share/zoneinfo (fallback: Go's embedded time/tzdata); Go extrapolates a zone's last DST rule to year 9999", "existence of a civil time / of a calendar day in a zone is decided with the UTC->local direction only", hookAssumption + " (GetStatus and Listen clauses)", "two digit system years are taken as 2000..2068"},
-		Plan: func(tier string) []Batch { return zoneBatches(n(tier, 48, 0), "tz", 20*time.Minute) }}
+		Plan:        func(tier string) []Batch { return zoneBatches(n(tier, 48, 0), "tz", 20*time.Minute) }}
 }
 
 func init() {
@@ -99,7 +108,7 @@ func init() {
 func init() {
 	specs["C17"] = &Spec{ID: "C17", Level: "exploration", Parallel: 8,
 		Assumptions: []string{hookAssumption, "door names held in the map returned by DeviceList are not asserted to be insulated (the statement only promises that changing that map does not change where requests go)"},
-		Plan: func(tier string) []Batch { return same(n(tier, 8, 16), Batch{Timeout: 30 * time.Minute}) }}
+		Plan:        func(tier string) []Batch { return same(n(tier, 8, 16), Batch{Timeout: 30 * time.Minute}) }}
 }
 
 var loopAssumption = "loopback (127.0.0.0/8) sockets stand in for the network; datagrams sent by one farm goroutine arrive in order"
@@ -175,5 +184,5 @@ func init() {
 func init() {
 	specs["C04"] = &Spec{ID: "C04", Level: "exploration", Parallel: 8,
 		Assumptions: []string{hookAssumption, "a nil result pointer is the API's 'no card / no event / no profile': calling a value-receiver String on it is the caller's bug and is not done", "rendering caller-built enum values outside their range (TaskType, CardFormat) is not exercised: the API never returns them", "a panic in a goroutine spawned by the library ends the worker: the parent reports the crash trace"},
-		Plan: func(tier string) []Batch { return same(n(tier, 8, 16), Batch{Timeout: 30 * time.Minute}) }}
+		Plan:        func(tier string) []Batch { return same(n(tier, 8, 16), Batch{Timeout: 30 * time.Minute}) }}
 }
